@@ -67,7 +67,7 @@ inductive Step where
   | idx (i : Nat)
   | key (k : String)
   | attr (n : String)
-  deriving Repr, BEq, DecidableEq, Inhabited
+  deriving Repr, DecidableEq, Inhabited
 
 abbrev Path := List Step
 
@@ -75,7 +75,7 @@ abbrev Path := List Step
 structure PVM where
   path : Path
   marks : List String
-  deriving Repr, BEq, DecidableEq, Inhabited
+  deriving Repr, DecidableEq, Inhabited
 
 /-- element type of a collection type (`dyn` when the type has none) -/
 def elemTy : Ty → Ty
